@@ -94,7 +94,7 @@ def tree_level(desc, now_ms):
     with FixedClock(now_ms):
         jt = m.J.serialize_report_into_json(rep)
         xt = attempt(lambda: ("ok", m.X.serialize_report_as_xml_tree(G.build_report(desc))))
-    jt = json.loads(json.dumps(jt))      # text layer of JSON, also detaches the tree from the report objects
+    jt = copy.deepcopy(jt)               # detaches the tree from the report objects (no text layer at this level)
     jl = attempt(lambda: outcome_of_report(m.J._unserialize_report(copy.deepcopy(jt))))
     xl = attempt(lambda: outcome_of_report(m.X._unserialize_report(xt[1]))) if xt[0] == "ok" else None
     return jt, xt, jl, xl
@@ -709,7 +709,7 @@ def check(run):
     workdir = tempfile.mkdtemp(prefix="lccverif_c09_")
     feats = {}
     tree_cases, file_cases, mut_cases = [], [], []
-    descs = []
+    descs, xml_exact = [], []
     try:
         # ---------------- 1. known findings: replay every listed witness on the implementation (both backends)
         for cls, f in finding_table():
@@ -742,6 +742,7 @@ def check(run):
             G.merge_features(feats, G.features(d))
             run.count("strings=" + mode)
             missing = has_missing_start(d)
+            xml_exact.append(False)
             jb, jo = oracle_one(d, "json", now, workdir)
             xb, xo = oracle_one(d, "xml", now, workdir)
             run.evaluations += 2
@@ -755,6 +756,7 @@ def check(run):
                 classify_failure(run, "xml", d, now, workdir, xo)
             else:
                 run.count("xml_roundtrip_exact")
+                xml_exact[-1] = True
                 if jb is None:
                     run.nontrivial.add("rt:%d" % i)
             if jb is None and xb is None:
@@ -885,6 +887,11 @@ def check(run):
                 for idx, _ in pairs[:3]:
                     run.tie_broken("the witness of %s in Props/C09.v is the report replayed by the harness" % pw[idx][0])
         run.count("xml_safe_reports(model)", safe_total)
+        exact = {i for i, ok in enumerate(xml_exact) if ok}
+        safe_set = {int(k[5:]) for k in run.nontrivial if k.startswith("safe:")}
+        run.coverage["xml_safe_tightness"] = ("reports the model classifies xml_safe: %d; reports whose XML round trip is exact on the "
+                                              "implementation: %d; exact but not xml_safe: %d (0 = the precondition is not stronger than "
+                                              "needed on this sample)" % (len(safe_set), len(exact), len(exact - safe_set)))
         # the witnesses of the refutation theorems, replayed on the implementation
         wd = tempfile.mkdtemp(prefix="lccverif_c09w_")
         try:
@@ -908,6 +915,9 @@ def check(run):
 
 def shrink_tie(run, d, now, level, code):
     """minimise a report on which model and implementation disagree (re-evaluating the model on each candidate)"""
+    if getattr(run, "_shrunk_ties", 0) >= 1 or run.oracle_hits:
+        return d          # one minimised disagreement per run is enough (each candidate costs a coqc call)
+    run._shrunk_ties = getattr(run, "_shrunk_ties", 0) + 1
     wd = tempfile.mkdtemp(prefix="lccverif_c09s_")
 
     def disagrees(c):
@@ -928,7 +938,7 @@ def shrink_tie(run, d, now, level, code):
         p = parse_pairs(out, 0) if rc == 0 else None
         return bool(p) and bool(p[0][1] & code)
     try:
-        return G.shrink(d, disagrees, max_calls=40)
+        return G.shrink(d, disagrees, max_calls=30)
     except Exception:      # noqa
         return d
     finally:
